@@ -944,6 +944,12 @@ func (c *fctx) fuelFor(s *ast.ForStmt) string {
 			return "(" + c.expr(arg) + ").length + 1"
 		}
 	}
+	// `for len(x) < N`: every iteration makes x longer
+	if arg, ok := isLen(x); ok && (op == token.LSS || op == token.LEQ) {
+		if v := rootVar(c.info, arg); v != nil {
+			return "((" + c.toInt(y) + ") - ((" + c.expr(arg) + ").length : Int)).toNat + 2"
+		}
+	}
 	// counting loops on a variable
 	if id, ok := x.(*ast.Ident); ok {
 		v := c.localVar(id)
